@@ -15,6 +15,8 @@ fn class(v: u64) -> &'static str {
         "2^32"
     } else if (v as i128 - (1i128 << 63)).abs() <= 16 {
         "2^63"
+    } else if v.count_ones() <= 2 || (v.wrapping_add(8) & v.wrapping_add(8).wrapping_sub(16)).count_ones() <= 2 {
+        "2^k+-d"
     } else {
         "other"
     }
@@ -29,6 +31,19 @@ fn operands() -> Vec<u64> {
     }
     for d in 0..16u64 {
         v.push(u64::MAX - d);
+    }
+    // every power of two +- a little, and sums of two neighbouring powers (operands that differ in
+    // a few bits around ANY bit position: partial-width fast paths, mistyped masks)
+    for k in 1..64u32 {
+        let b = 1u64 << k;
+        for d in [0u64, 1, 2, 5, 7] {
+            v.push(b.wrapping_add(d));
+            v.push(b.wrapping_sub(d));
+        }
+        if k < 63 {
+            v.push(b | (b << 1));
+            v.push((b | (b << 1)).wrapping_add(5));
+        }
     }
     v.sort();
     v.dedup();
